@@ -68,6 +68,45 @@ CHECKS.update({
             "Coq model + proof (loop invariants) + exhaustive small-scope correspondence", "5 C17"),
 })
 
+CHECKS.update({
+    "C01": ("proof",
+            "Structural Coq models of the engine kernels as flox wraps them (engine='flox': stable argsort + reduceat over runs + scatter, NaN-substitution "
+            "wrappers incl. the count-based all-NaN detection; numpy_groupies wrappers) with theorems: each equals the reducer on the group's members in "
+            "original order, engines agree, reducers = NumPy's left folds. Tie: K2 exact correspondence of generic_aggregate per engine/kernel with the "
+            "models; K3 eager groupby_reduce over 27 reductions x 5 engine settings x 10 dtypes vs per-group NumPy and the Coq model.",
+            NOTE_COMMON + "Known findings KF01/KF03/KF04 are reported as KNOWN-FINDING. numba/numbagg kernels are covered by K3 only.",
+            "Coq proof (sort/segment/scatter refinement) + differential correspondence", "5 C01"),
+    "C06": ("proof",
+            "Coq theorems on the arg-reduction algebra: the (value, index) operator 'leftmost extreme wins' is associative on NaN-free values; over ANY "
+            "reduction tree and chunking the result is the global position of the first occurrence of the extreme (argmax/argmin on NaN-free groups; nanarg* "
+            "when no block holds only NaNs of the group - the statement without that hypothesis is refuted by a vm_compute witness = known finding KF02); "
+            "nanfirst/nanlast are order-aware monoids. Tie: K3 with ties and NaNs at chunk boundaries vs eager, NumPy and the Coq model.",
+            NOTE_COMMON, "Coq proof (semigroup law over trees) + differential correspondence", "5 C06"),
+    "C07": ("proof",
+            "Coq theorems: digitize-based bin codes = pandas.cut for every strictly increasing edge list, every value (edges, outside, NaN, +-inf) and "
+            "both closed sides; mixed-radix ravel of any number of groupers is injective on in-range codes and keeps -1. Tie: exhaustive K2 of "
+            "_factorize_single vs pandas.cut (oracle) and the Coq model; _ravel_factorized vs model; K3 1-3 groupers eager/dask/dask labels.",
+            NOTE_COMMON, "Coq proof (arithmetic on sorted edges, mixed radix) + exhaustive small-scope correspondence", "5 C07"),
+    "C08": ("proof",
+            "Coq theorems: offset codes separate rows (slot g+row*ngroups receives exactly row's members of g; -1 preserved); the flattened reduction "
+            "with offset codes equals the row-by-row 1-D grouped reduction for any number of rows. Tie: K2 offset_labels vs model; K3 arrays of 1-4 dims, "
+            "labels 1-3 dims, every axis subset/order/sign, eager and dask chunked on every axis vs slice-by-slice NumPy.",
+            NOTE_COMMON + "The transposition/squeeze plumbing beyond the flattened (rows x reduced) form is validated by K3, not proved.",
+            "Coq proof (index arithmetic) + differential correspondence", "5 C08"),
+    "C10": ("proof",
+            "Coq theorems: the chunked grouped scan (per-group state of earlier blocks combined with the in-block scan) equals the sequential per-group "
+            "scan for EVERY chunking; the carried state may be assembled along any bracketing (Blelloch); nancumsum value = NumPy running nansum. Tie: K3 all "
+            "chunkings of short axes + random cases vs the per-group NumPy/pandas scan and the Coq model.",
+            NOTE_COMMON + "dask's prefixscan is modelled (some bracketing of binop over preop of earlier blocks).",
+            "Coq proof (monoid homomorphism over prefixes) + differential correspondence", "5 C10"),
+    "C18": ("proof",
+            "Coq theorem: indexing the globally (label, value)-sorted array at cumulative-valid-count + floor/ceil(q(n-1)) and interpolating gives "
+            "NumPy's linear quantile of each group's own members, for every number of groups, group size, NaN count and rational q in [0,1]. Tie: exhaustive "
+            "(size, NaN count, q) grid + random cases vs numpy.quantile/nanquantile and the Coq model; refusal on non-blockwise plans.",
+            NOTE_COMMON + "np.partition on the complex encoding is modelled (labels ascending, valid values ascending, NaNs last).",
+            "Coq proof (offset index arithmetic) + differential correspondence", "5 C18"),
+})
+
 
 def main():
     checks, na = [], []
